@@ -20,6 +20,131 @@ func init() {
 	})
 }
 
+func init() {
+	register("C10", &propCheck{
+		explanation: "Crash consistency needs, at every point, (1) that a statement's effect and its revision row are written through the same transaction in file/all modes, (2) that in every mode a statement is executed before its revision row is updated and the row is persisted before the next statement, and (3) that the commit happens only after Execute returned nil. (1) and (3) are decided by E-tstate (abstract interpretation of migrateApplyRun and the tx multiplexer over every tx-mode × directive sequence × outcome of the external calls: the driver and the revision writer handed to the executor must both belong to the currently open transaction; commits only at the documented points), plus shape rules that the revision writer and the transaction client are bound to the connection they were created from; (2) by the go/cfg ordering rules on Executor.Execute. A crash skips all deferred code, so only this order of effects matters.",
+		undecided:   []string{"durability / atomicity of the engine itself at a crash point (COMMIT is atomic, uncommitted work is rolled back on reopen)", "behaviour of SQLite when the process dies inside a statement"},
+		run:         runC10,
+	})
+}
+
+func runC10(c *Ctx) {
+	c.Rule("R10a", "same-transaction pairing and commit points (E-tstate): on every path, for every tx-mode × directive sequence × dry-run, the executor's driver and revision writer belong to the open transaction (file/all) or to the plain client (none), and commits happen only after a successful Execute at the documented points", 7)
+	c.Rule("R10d", "binding: NewEntRevisions builds its ent connection from the Driver of the client it is given (so revision rows go through the transaction of a TxClient); Client.Tx opens the TxClient's driver on the begun transaction; RevisionsForClient/entRevisions pass their client through", 4)
+	runTxTypestate(c, "R10a")
+	execRules(c, false)
+
+	// R10d
+	if fi := c.Func("R10d", pCmdmig, "", "NewEntRevisions"); fi != nil {
+		info := fi.Info()
+		ps := fi.Decl.Type.Params.List
+		var acObj types.Object
+		for _, p := range ps {
+			for _, nm := range p.Names {
+				if typeIs(info.TypeOf(p.Type), modRoot+"/sql/sqlclient", "Client") {
+					acObj = info.ObjectOf(nm)
+				}
+			}
+		}
+		// r := &EntRevisions{ac: ac}
+		bound := false
+		ast.Inspect(fi.Decl.Body, func(m ast.Node) bool {
+			if kv, ok := m.(*ast.KeyValueExpr); ok {
+				if k, ok := kv.Key.(*ast.Ident); ok && k.Name == "ac" {
+					if v, ok := kv.Value.(*ast.Ident); ok && info.ObjectOf(v) == acObj {
+						bound = true
+					}
+				}
+			}
+			return true
+		})
+		viaDriver := false
+		ast.Inspect(fi.Decl.Body, func(m ast.Node) bool {
+			if kv, ok := m.(*ast.KeyValueExpr); ok {
+				if k, ok := kv.Key.(*ast.Ident); ok && k.Name == "ExecQuerier" {
+					if se, ok := kv.Value.(*ast.SelectorExpr); ok && se.Sel.Name == "Driver" {
+						if in, ok := se.X.(*ast.SelectorExpr); ok && in.Sel.Name == "ac" {
+							viaDriver = true
+						}
+					}
+				}
+			}
+			return true
+		})
+		c.Check("R10d", "NewEntRevisions|ent connection uses the given client's Driver", fi.Decl.Pos(), bound && viaDriver && acObj != nil, "the revision writer must execute through r.ac.Driver of the client it was created for (a TxClient's driver is bound to the transaction); bound=%v viaDriver=%v", bound, viaDriver)
+	}
+	for _, fn := range []struct{ pkg, name, callee string }{{pCmdmig, "RevisionsForClient", "NewEntRevisions"}, {pCmdapi, "entRevisions", "RevisionsForClient"}} {
+		fi := c.Func("R10d", fn.pkg, "", fn.name)
+		if fi == nil {
+			continue
+		}
+		info := fi.Info()
+		var clientParam types.Object
+		for _, p := range fi.Decl.Type.Params.List {
+			for _, nm := range p.Names {
+				if typeIs(info.TypeOf(p.Type), modRoot+"/sql/sqlclient", "Client") {
+					clientParam = info.ObjectOf(nm)
+				}
+			}
+		}
+		ok := false
+		for _, call := range callsIn(fi.Decl.Body, false) {
+			if cf := calleeOf(info, call); cf != nil && cf.Name() == fn.callee && len(call.Args) >= 2 {
+				if a, isID := call.Args[1].(*ast.Ident); isID && info.ObjectOf(a) == clientParam {
+					ok = true
+				}
+			}
+		}
+		c.Check("R10d", fn.name+"|passes its client to "+fn.callee, fi.Decl.Pos(), ok, "%s must create the revision writer for the client it was given", fn.name)
+	}
+	if fi := c.Func("R10d", modRoot+"/sql/sqlclient", "Client", "Tx"); fi != nil {
+		info := fi.Info()
+		// drv, err := c.openDriver(tx) ; ic.Driver = drv ; &TxClient{Client: &ic, Tx: tx}
+		var txObj, drvObj types.Object
+		ast.Inspect(fi.Decl.Body, func(m ast.Node) bool {
+			as, ok := m.(*ast.AssignStmt)
+			if !ok || len(as.Rhs) != 1 {
+				return true
+			}
+			call, ok := as.Rhs[0].(*ast.CallExpr)
+			if !ok {
+				return true
+			}
+			if se, ok := call.Fun.(*ast.SelectorExpr); ok && se.Sel.Name == "openDriver" && len(call.Args) == 1 {
+				if a, ok := call.Args[0].(*ast.Ident); ok {
+					txObj = info.ObjectOf(a)
+				}
+				if l, ok := as.Lhs[0].(*ast.Ident); ok {
+					drvObj = info.ObjectOf(l)
+				}
+			}
+			return true
+		})
+		txIsTx := txObj != nil && typeIs(txObj.Type(), modRoot+"/sql/sqlclient", "Tx")
+		assigned, sameTx := false, false
+		ast.Inspect(fi.Decl.Body, func(m ast.Node) bool {
+			switch x := m.(type) {
+			case *ast.AssignStmt:
+				if len(x.Lhs) == 1 && len(x.Rhs) == 1 {
+					if se, ok := x.Lhs[0].(*ast.SelectorExpr); ok && se.Sel.Name == "Driver" {
+						if r, ok := x.Rhs[0].(*ast.Ident); ok && info.ObjectOf(r) == drvObj {
+							assigned = true
+						}
+					}
+				}
+			case *ast.KeyValueExpr:
+				if k, ok := x.Key.(*ast.Ident); ok && k.Name == "Tx" {
+					if v, ok := x.Value.(*ast.Ident); ok && info.ObjectOf(v) == txObj {
+						sameTx = true
+					}
+				}
+			}
+			return true
+		})
+		c.Check("R10d", "sqlclient.(Client).Tx|driver opened on the begun transaction", fi.Decl.Pos(), txIsTx && assigned && sameTx, "the TxClient must carry a driver opened on the same *Tx it commits (openDriver(tx), ic.Driver = drv, TxClient{Tx: tx}); txIsTx=%v assigned=%v sameTx=%v", txIsTx, assigned, sameTx)
+	}
+}
+
 // ---------------------------------------------------------------- scenario
 
 type txScenario struct {
